@@ -5,7 +5,7 @@
   answer   {"err":null|{"cls","cause"},"state":S',"actions":[…],"out":[…],"win":{"weth":[…],"osqth":[…]}}
   S = {"wallet":[[name,bal]…],"vaults":[[id,{"coll","short","nft":null|[lo,hi]}]…],"maxId":n,
        "positions":[[[lo,hi],{"liquidity","p0","p1","transferred"}]…]}            (log starts empty)
-  E = {"nf","weth","osqth","now":null|int,"rows":[[t,weth,osqth]…],"uniPrice","uniOpen",
+  E = {"nf","weth","osqth","now":null|int,"rows":[[t,weth,osqth]…],"uniPrice","uniOpen","uniFee" (optional, default 0.003),
        "oracle":[[[p…],mean]…]}     the geometric means captured from the real calc_twap_price, keyed by window
   The model selects the TWAP window itself; a window that the real code never passed to calc_twap_price is
   answered by {"error":"oracle-miss …"} — that is how the window selection is tied to the code.
@@ -81,6 +81,8 @@ def actionJ : Action → Json
   | .uniRemove p a b c d f g => Json.mkObj [("k", "uniRemove"), ("pos", posKeyJ p),
       ("n", .arr #[ratJ a, ratJ b, natJ c, natJ d, ratJ f, ratJ g])]
   | .uniCollect p a b c d => Json.mkObj [("k", "uniCollect"), ("pos", posKeyJ p), ("n", .arr #[ratJ a, ratJ b, ratJ c, ratJ d])]
+  | .uniTrade kind nums => Json.mkObj [("k", .str (if kind == "BuyAction" then "uniBuy" else if kind == "SellAction" then "uniSell" else kind)),
+      ("n", .arr (nums.map ratJ).toArray)]
 
 def ratList (j : Json) : Except String (List Rat) :=
   match j with
@@ -104,8 +106,11 @@ def envOf (j : Json) : Except String (Env × List (List Rat × Rat)) := do
   let mean : List Rat → Rat := fun w => match table.find? (fun p => p.1 == w) with
     | some p => p.2
     | none => 0
+  let fee ← match jOpt j "uniFee" with
+    | none => pure ((3 : Rat) / 1000)
+    | some v => jRatOf v
   pure ({ nf := ← jRat j "nf", weth := ← jRat j "weth", osqth := ← jRat j "osqth", now := now, rows := rows,
-          uniPrice := ← jRat j "uniPrice", uniOpen := ← jBool j "uniOpen", mean := mean }, table)
+          uniPrice := ← jRat j "uniPrice", uniOpen := ← jBool j "uniOpen", mean := mean, uniFee := fee }, table)
 
 /-- every window the model may hand to the oracle must have been seen by the real `calc_twap_price` -/
 def oracleCheck (e : Env) (table : List (List Rat × Rat)) : Except String Unit :=
@@ -120,6 +125,11 @@ def oracleCheck (e : Env) (table : List (List Rat × Rat)) : Except String Unit 
       if !(table.any (fun p => p.1 == ww)) then throw s!"oracle-miss weth window {ww.map showRat}"
       else if !(table.any (fun p => p.1 == wo)) then throw s!"oracle-miss osqth window {wo.map showRat}"
       else pure ()
+
+def optRat (j : Json) (k : String) : Except String (Option Rat) :=
+  match jOpt j k with
+  | none => pure none
+  | some v => do pure (some (← jRatOf v))
 
 def opOf (j : Json) : Except String Op := do
   let k ← jStr j "k"
@@ -137,6 +147,8 @@ def opOf (j : Json) : Except String Op := do
   | "update" => pure .update
   | "reduceDebt" => pure (.reduceDebt (← jNat j "vk") (← jBool j "payBounty"))
   | "uniRemove" => pure (.uniRemove (← posKeyOf (← jObj j "pos")))
+  | "buy" => pure (.buy (← optRat j "osqth") (← optRat j "eth"))
+  | "sell" => pure (.sell (← optRat j "osqth") (← optRat j "eth"))
   | _ => throw s!"unknown op {k}"
 
 def errJ : Option Err → Json
